@@ -885,6 +885,36 @@ func (v *valmon) directedMuts(cs consensus.State, orig *types.Block) []mut {
 	if !v2ok {
 		return muts
 	}
+	// v2: an in-block ("ephemeral") siacoin / siafund parent whose ID is that of an element of ANOTHER kind created
+	// earlier in the block. MidState keeps one id->index map for all kinds, so the index found may point past the
+	// end of the siacoin / siafund diff list: the v2 part of the block is replaced by an attestation-only transaction
+	// (no siacoin element at all) followed by the spend.
+	for _, nAtt := range []int{1, 3} {
+		for _, kind := range []string{"siacoin", "siafund"} {
+			nAtt, kind := nAtt, kind
+			muts = append(muts, mut{op: "cross-kind-parent-id", field: "v2.appended-transaction.ephemeral-" + kind + "-parent", val: fmt.Sprintf("id-of-attestation-%d-of-%d-of-the-block", nAtt-1, nAtt), directed: true, noResign: true, f: func(blk *types.Block) bool {
+				key := v.c.W.Keys[0]
+				var a types.V2Transaction
+				for k := 0; k < nAtt; k++ {
+					a.Attestations = append(a.Attestations, types.Attestation{PublicKey: key.PublicKey(), Key: fmt.Sprintf("k%d", k), Value: []byte{byte(k)}})
+				}
+				v.c.SignV2(cs, &a, nil)
+				id := a.AttestationID(a.ID(), nAtt-1)
+				var sp types.V2Transaction
+				if kind == "siacoin" {
+					sp = types.V2Transaction{SiacoinInputs: []types.V2SiacoinInput{{Parent: types.SiacoinElement{ID: types.SiacoinOutputID(id), StateElement: types.StateElement{LeafIndex: types.UnassignedLeafIndex}, SiacoinOutput: types.SiacoinOutput{Value: types.NewCurrency64(1), Address: types.AnyoneCanSpend().Address()}}, SatisfiedPolicy: types.SatisfiedPolicy{Policy: types.AnyoneCanSpend()}}}, MinerFee: types.NewCurrency64(1)}
+				} else {
+					sp = types.V2Transaction{SiafundInputs: []types.V2SiafundInput{{Parent: types.SiafundElement{ID: types.SiafundOutputID(id), StateElement: types.StateElement{LeafIndex: types.UnassignedLeafIndex}, SiafundOutput: types.SiafundOutput{Value: 1, Address: types.AnyoneCanSpend().Address()}}, SatisfiedPolicy: types.SatisfiedPolicy{Policy: types.AnyoneCanSpend()}}}, SiafundOutputs: []types.SiafundOutput{{Value: 1, Address: dest}}}
+				}
+				blk.Transactions = nil
+				if blk.V2 == nil {
+					blk.V2 = &types.V2BlockData{}
+				}
+				blk.V2.Transactions = []types.V2Transaction{a, sp}
+				return true
+			}})
+		}
+	}
 	for j := range orig.V2Transactions() {
 		j := j
 		t := &orig.V2.Transactions[j]
